@@ -71,10 +71,12 @@ type c19Search struct {
 	name      string
 	mode      string // state caches: "none", "per-block" (a new cache for every block writer), "shared" (one for all)
 
-	writercache int // per-block mode: cache size of the block writers (0: cachesize)
-	seqstates   bool
-	permbatch   int // LeveldbPermanent.batchlimit (0: default 333)
-	counter     *int
+	depthoverride int
+	prefix        []string // the search starts after these events (their states are covered by the search without prefix)
+	writercache   int      // per-block mode: cache size of the block writers (0: cachesize)
+	seqstates     bool
+	permbatch     int // LeveldbPermanent.batchlimit (0: default 333)
+	counter       *int
 }
 
 // execute replays hist on a fresh database; the last event and the reads after
@@ -160,11 +162,17 @@ func (s *c19Search) run() {
 		p    *vfPure
 	}
 
-	root := vfNewPure(s.cachesize, s.maxblocks)
-	frontier := []node{{p: root}}
-	seen := map[string]bool{root.key(): true}
-
 	d0 := s.env.domain(s.maxblocks, nil)
+
+	root := vfNewPure(s.cachesize, s.maxblocks)
+
+	for _, ev := range s.prefix {
+		root.apply(s.env, ev)
+		root.afterReads(d0)
+	}
+
+	frontier := []node{{p: root, hist: s.prefix}}
+	seen := map[string]bool{root.key(): true}
 
 	for depth := 1; depth <= s.depth && len(frontier) > 0; depth++ {
 		var next []node
@@ -308,6 +316,13 @@ func TestVerifC19(t *testing.T) {
 		{name: "cache-per-block-tiny-writer-cache-batch3", mode: "per-block", cachesize: 16, writercache: 1, seqstates: true, permbatch: 3},
 	}
 
+	// the same from a chain whose genesis block is in the permanent database and whose states were read from there
+	// (a key cached by a read, then overwritten by a block that is merged, needs 6 events from the empty database)
+	searches = append(searches, &c19Search{
+		name: "cache-per-block-tiny-writer-cache-batch3-from-merged-genesis", mode: "per-block", cachesize: 16, writercache: 1, seqstates: true, permbatch: 3,
+		prefix: []string{"WG", "WO", "m"}, depthoverride: vlib.Pick(r, 3, 4),
+	})
+
 	if r.Thorough() {
 		searches = append(searches,
 			&c19Search{name: "cache-none", mode: "none"},
@@ -317,6 +332,11 @@ func TestVerifC19(t *testing.T) {
 
 	for _, s := range searches {
 		s.r, s.env, s.maxblocks, s.depth, s.counter = r, env, maxblocks, depth, &counter
+
+		if s.depthoverride > 0 {
+			s.depth = s.depthoverride
+		}
+
 		s.run()
 	}
 
